@@ -652,6 +652,10 @@ func (se *SpecEnv) callExpr(x *SCall) (Value, types.Type) {
 			vv, vt := se.eval(x.Args[2])
 			val := se.materialize(vv, Sym("x", vc.SortOf(sa.V)), vt)
 			return Store(av, k, val), at
+		case "qmilli":
+			v, _ := se.evalTerm(x.Args[0])
+			vc.declare("k8s.quantity.milli", fmt.Sprintf("(declare-fun k8s.quantity.milli (%s) Int)", v.Sort))
+			return App("k8s.quantity.milli", SInt, v), types.Typ[types.Int64]
 		case "fs_exists":
 			v, _ := se.evalTerm(x.Args[0])
 			return Select(se.ex.comp(se.cur, "GH.fs.exists", ArraySort(SStr, SBool)), v), boolT
@@ -700,6 +704,25 @@ func (se *SpecEnv) callExpr(x *SCall) (Value, types.Type) {
 		// pure spec function
 		if pf := se.ex.eng.lookupPure(se.pkg, id.Name); pf != nil {
 			return se.applyPure(x, pf)
+		}
+		// a package-level function variable bound once to a function
+		if se.pkg != nil {
+			if v, ok := se.pkg.Scope().Lookup(id.Name).(*types.Var); ok {
+				if g := se.ex.eng.globalOf(v); g != nil {
+					if fn := se.ex.eng.constFuncGlobal(g); fn != nil {
+						var args []Value
+						for i, a := range x.Args {
+							av, t := se.eval(a)
+							pt := fn.Signature.Params().At(i).Type()
+							if c, ok := av.(*constVal); ok {
+								av = se.materialize(c, Sym("x", vc.SortOf(pt)), t)
+							}
+							args = append(args, av)
+						}
+						return se.callReal(x, fn, args)
+					}
+				}
+			}
 		}
 		// real package-level function
 		if se.pkg != nil {
@@ -853,6 +876,19 @@ func (se *SpecEnv) callReal(x SExpr, fn *ssa.Function, args []Value) (Value, typ
 	if m, ok := models[fn.String()]; ok {
 		sub := se.cur.clone()
 		return m(ex, se.fr, sub, se.reach, args, nil), rt
+	}
+	if fc := ex.eng.cs.Funcs[funcKey(fn)]; fc != nil && ex.top != nil && ex.top != fn {
+		if _, functional := fc.Opts["functional"]; functional {
+			// the same uninterpreted function the call sites of the contract use; its contract's
+			// postconditions are assumed for this application as well
+			sub := se.cur.clone()
+			if rv := ex.functionalResults(sub, se.reach, fn, args); rv != nil {
+				if vc := ex.vc; vc.quantDepth == 0 {
+					ex.assumeFunctionalEnsures(fn, fc, args, rv, sub)
+				}
+				return resultValue(rv), rt
+			}
+		}
 	}
 	if eff := ex.eng.effectOf(fn); eff == effPure {
 		sub := se.cur.clone()
@@ -1174,4 +1210,27 @@ func (ex *Exec) ghostAddr(pkg *types.Package, name string) *Addr {
 		panic(specErr{"unknown type " + ts + " of ghost variable " + name})
 	}
 	return &Addr{comp: "GH." + sanitize(pkg.Path()) + "." + name, compSort: ex.vc.SortOf(t), typ: t}
+}
+
+func (ex *Exec) assumeFunctionalEnsures(fn *ssa.Function, fc *FuncContract, args []Value, results []Value, st *State) {
+	key := fmt.Sprintf("%s(%v)", funcKey(fn), args)
+	if ex.funcAssumed == nil {
+		ex.funcAssumed = map[string]bool{}
+	}
+	if ex.funcAssumed[key] {
+		return
+	}
+	ex.funcAssumed[key] = true
+	se := &SpecEnv{ex: ex, pkg: ex.eng.typesPkg(fc.Pkg), names: map[string]specBinding{}, cur: st, old: st, reach: TTrue}
+	for i, p := range fn.Params {
+		se.names[p.Name()] = specBinding{args[i], p.Type()}
+	}
+	var pre []*Term
+	for _, r := range fc.Requires {
+		pre = append(pre, se.evalBool(r.Expr))
+	}
+	bindResults(se, fn.Signature, results)
+	for _, e := range fc.Ensures {
+		ex.vc.Assume(And(pre...), se.evalBool(e.Expr))
+	}
 }
